@@ -51,15 +51,24 @@ KINDS = {
     'recalpp':    ('FooRecAlias**', 'rec', 2, None),
     'cbal':       ('FooCbAlias', 'callback', 0, None),
     'enumal':     ('FooEnumAlias', 'enum', 0, None),
+    # pointer-to-basic whose OUTERMOST pointer is qualified: same validity as the unqualified pointer
+    # (parameter sites only)
+    'intpc':      ('gint* const', 'int', 1, None),
+    'u8pc':       ('guint8* const', 'int', 1, None),
+    'dblpv':      ('gdouble* volatile', 'int', 1, None),
+    'cintpc':     ('const gint* const', 'int', 1, None),
+    # a boxed record (only as the return value of its constructor)
+    'box':        ('FooBox*', 'boxed', 1, None),
 }
+QUALIFIED_PTR = ('intpc', 'u8pc', 'dblpv', 'cintpc')
 # alias kind (or pointer-to variant) -> kind of the direct spelling (violation keys fold an alias kind into its base kind when both fail)
-ALIAS_OF = {'anyp': 'any', 'recal': 'rec', 'recal2': 'rec', 'recalpp': 'recpp', 'cbal': 'cb', 'enumal': 'enum'}
+ALIAS_OF = {'intpc': 'intp', 'u8pc': 'intp', 'dblpv': 'intp', 'cintpc': 'intp', 'anyp': 'any', 'recal': 'rec', 'recal2': 'rec', 'recalpp': 'recpp', 'cbal': 'cb', 'enumal': 'enum'}
 KIND_ORDER = ['int', 'intp', 'str', 'cstr', 'any', 'anyp', 'rec', 'recpp', 'enum', 'list', 'hash', 'garray',
               'ptrarray', 'bytearray', 'strv', 'cb', 'dnotify', 'obj', 'variant', 'unres',
-              'recal', 'recal2', 'recalpp', 'cbal', 'enumal']
+              'recal', 'recal2', 'recalpp', 'cbal', 'enumal', 'intpc', 'u8pc', 'dblpv', 'cintpc', 'box']
 CONTAINER_CATS = ('list', 'hash', 'garray', 'ptrarray', 'bytearray')
 
-CALLABLES = ['function', 'method', 'callback', 'vfunc', 'vfunc_inv', 'signal']
+CALLABLES = ['function', 'method', 'callback', 'vfunc', 'vfunc_inv', 'signal', 'ctor']
 
 # neighbour parameters present in every callable: (C type, name)
 #   n    - an integer, the length candidate
@@ -123,6 +132,10 @@ LEN_ARRAYS = [['array length=n'], ['out', 'array length=n'], ['inout', 'array le
 LEN_ANNS = ['@n optional', '@n nullable', '@n not optional', '@n skip', '@n transfer none']
 
 
+# annotations offered on the return value of a constructor (type-changing ones would undo the pairing)
+CTOR_MENU = TRANSFER + ['nullable', 'not nullable', 'skip', 'attributes my.key=val', 'transfer bogus', 'optional']
+
+
 def ann_name(a):
     return a.split()[0]
 
@@ -136,6 +149,9 @@ def parse_ann(a):
 # --------------------------------------------------------------- case builder ---
 def site_positions(callable_):
     """[(layout, site)] explored for a callable kind."""
+    if callable_ == 'ctor':
+        # constructors: foo_<type>_new (layout 0) and foo_obj_new_with_x (layout 1, class only)
+        return [(0, 'ret'), (1, 'ret')]
     out = [(0, 'p'), (1, 'p'), (0, 'ret')]
     if callable_ in ('method', 'vfunc', 'vfunc_inv'):
         out.append((0, 'self'))
@@ -143,6 +159,12 @@ def site_positions(callable_):
 
 
 def kind_ok(callable_, site, kind):
+    if callable_ == 'ctor':
+        return site == 'ret' and kind in ('obj', 'box')     # a plain record without GType cannot have one
+    if kind == 'box':
+        return False
+    if kind in QUALIFIED_PTR and site != 'p':
+        return False
     if site == 'self':
         return kind == 'rec' if callable_ == 'method' else kind == 'obj'
     if callable_ == 'signal':
@@ -212,6 +234,15 @@ def build(case):
     elif c == 'callback':
         decls.append(Callback('FooHandler', ret, params))
         bname = 'FooHandler'
+    elif c == 'ctor':
+        kind = case['kind']
+        bname = {'rec': 'foo_rec_new', 'box': 'foo_box_new',
+                 'obj': 'foo_obj_new_with_x' if case['layout'] == 1 else 'foo_obj_new'}[kind]
+        if kind == 'box':
+            decls += [Typedef('FooBox', 'struct _FooBox'), Struct('_FooBox', [Field('y', 'int')]),
+                      Func('foo_box_get_type', 'GType', [])]
+            signals = None
+        decls.append(Func(bname, ret, params))
     elif c == 'vfunc':
         class_fields.append(FieldCb('vf', ret, [('FooObj*', 'self')] + params))
         bname = 'FooObjClass::vf'
@@ -240,8 +271,12 @@ def build(case):
         raise ValueError(c)
     decls.append(Struct('_FooObjClass', class_fields))
     number(decls)
+    boxed = ''
+    if signals is None:
+        signals = ''
+        boxed = '<boxed name="FooBox" get-type="foo_box_get_type"/>'
     dump = ('<?xml version="1.0"?><dump><class name="FooObj" get-type="foo_obj_get_type" '
-            'parents="GObject">%s</class></dump>' % signals)
+            'parents="GObject">%s</class>%s</dump>' % (signals, boxed))
     return decls, dump, bname, names
 
 
